@@ -145,7 +145,15 @@ func runC13(r *lib.Run) {
 				donor := lib.NewGen(cfg, r.Seed+int64(100+step), i, c10Opts(i)).Tree()
 				cands := c13Ops(cfg, donor, rng)
 				// deletes may also target what is in the root now
-				cur := lib.NewGen(cfg, r.Seed, i, c10Opts(i)).Tree()
+				gcur := lib.NewGen(cfg, r.Seed, i, c10Opts(i))
+				cur := gcur.Tree()
+				if step%2 == 1 {
+					// an edited copy of what the root started as: payloads that name existing list
+					// entries (also at the second list level) but lack some of their leaves and
+					// children, which an update must leave alone
+					gcur.Mutate(cur, 3+rng.Intn(6))
+					r.Hit("donor:edited-copy-of-root")
+				}
 				cands = append(cands, c13Ops(cfg, cur, rng)...)
 				if len(cands) == 0 {
 					break
